@@ -179,5 +179,19 @@ k("K91", "C02", "primitive/integers.go", "func ReadLong(source io.Reader) (decod
   "func ReadLong(source io.Reader) (decoded int64, err error) {\n\tvar hi, lo int32\n\tif err = binary.Read(source, binary.BigEndian, &hi); err == nil {\n\t\terr = binary.Read(source, binary.BigEndian, &lo)\n\t}\n\tif err != nil {\n\t\treturn 0, fmt.Errorf(\"cannot read [long]: %w\", err)\n\t}\n\treturn int64(hi)<<32 | int64(lo), nil\n}",
   "bit-assembly:primitive.ReadLong", "long assembled from two sign-extended halves (seeded C01-B)")
 
+# ---- C05
+k("K34", "C05", "frame/decode.go", "\tcount := int64(header.BodyLength)\n\tbuf := bytes.NewBuffer(make([]byte, 0, count))", "\tcount := int64(header.BodyLength) + 1\n\tbuf := bytes.NewBuffer(make([]byte, 0, count))",
+  "raw-count:DecodeRawBody", "raw run one byte longer than declared")
+k("K35", "C05", "frame/encode.go", "\t\tframe.Header.BodyLength = int32(len(frame.Body))\n\t\tif err := c.EncodeHeader(frame.Header, dest); err != nil {\n\t\t\treturn fmt.Errorf(\"cannot encode raw header: %w\", err)\n\t\t} else if",
+  "\t\tframe.Header.BodyLength = int32(len(frame.Body))\n\t\tvd := uint8(frame.Header.Version)\n\t\tif frame.Header.IsResponse {\n\t\t\tvd |= 0x80\n\t\t}\n\t\t_ = primitive.WriteByte(vd, dest)\n\t\t_ = primitive.WriteByte(uint8(frame.Header.Flags), dest)\n\t\t_ = primitive.WriteByte(uint8(frame.Header.OpCode), dest)\n\t\t_ = primitive.WriteStreamId(frame.Header.StreamId, dest, frame.Header.Version)\n\t\tif err := primitive.WriteInt(frame.Header.BodyLength, dest); err != nil {\n\t\t\treturn fmt.Errorf(\"cannot encode raw header: %w\", err)\n\t\t} else if",
+  "header-shape:EncodeRawFrame", "inline header reimplementation with opcode before stream id")
+k("K92", "C05", "frame/decode.go", "\tbuf := bytes.NewBuffer(make([]byte, 0, count))\n\tif _, err := io.CopyN(buf, source, count); err != nil {\n\t\treturn nil, fmt.Errorf(\"cannot decode raw body: %w\", err)\n\t}\n\treturn buf.Bytes(), nil",
+  "\tif b, ok := source.(*bytes.Buffer); ok && int64(b.Len()) >= count {\n\t\treturn b.Next(int(count)), nil\n\t}\n\tbuf := bytes.NewBuffer(make([]byte, 0, count))\n\tif _, err := io.CopyN(buf, source, count); err != nil {\n\t\treturn nil, fmt.Errorf(\"cannot decode raw body: %w\", err)\n\t}\n\treturn buf.Bytes(), nil",
+  "raw-", "zero-copy fast path aliases the caller's buffer (seeded C05-B)")
+k("K93", "C05", "frame/convert.go", "c.DecodeBody(frame.Header, bytes.NewBuffer(frame.Body))", "c.DecodeBody(&Header{Version: frame.Header.Version, OpCode: frame.Header.OpCode, IsResponse: frame.Header.IsResponse}, bytes.NewBuffer(frame.Body))",
+  "convert:ConvertFromRawFrame", "body decoded with a header that lost its flags")
+k("K94", "C05", "frame/encode.go", "\tif header.Flags.Contains(primitive.HeaderFlagCustomPayload) {\n\t\tlength += primitive.LengthOfBytesMap(body.CustomPayload)", "\tif header.Flags.Contains(primitive.HeaderFlagCustomPayload) && len(body.CustomPayload) > 0 {\n\t\tlength += primitive.LengthOfBytesMap(body.CustomPayload)",
+  "body-length:frame.body@", "empty custom payload not counted (seeded C05-A)")
+
 json.dump(C, open(os.path.join(os.path.dirname(os.path.abspath(__file__)), "controls.json"), "w"), indent=1)
 print(len(C), "controls")
